@@ -430,6 +430,14 @@ def e2e_case(draw):
         # further 429s in the same run, each with its own hint; the client may re-raise one stored error object
         "more": draw(st.one_of(st.just([]), st.lists(st.one_of(st.integers(0, 8), st.integers(0, 300)), max_size=2))),
         "same_obj": draw(st.booleans()),
+        # failures of OTHER retryable classes (503 -> SERVER_ERROR, 409 -> CONCURRENCY, no hint) before / between the
+        # 429s, with retry_after_or registered for RATE_LIMIT only next to a different strategy for the other classes
+        "mixed": draw(st.one_of(st.just(None), st.fixed_dictionaries({
+            "where": st.lists(st.integers(0, 3), min_size=1, max_size=2),
+            "status": st.sampled_from([503, 409, 500]),
+            "other": st.sampled_from([0.0, 0.015625, 0.5]),
+            "via": st.sampled_from(["strategies", "strategies+default"]),
+        }))),
     }
 
 
@@ -437,6 +445,10 @@ def check_e2e(case: dict) -> Verdict:
     v = Verdict()
     clock = VClock(None)
     hints = [case["n"]] + list(case.get("more") or [])
+    mixed = case.get("mixed")
+    if mixed:
+        for pos in sorted(mixed["where"]):
+            hints.insert(min(pos, len(hints)), None)  # None = a failure of another class, carrying no hint
     slept: list = []
     fails: list = []
     calls = {"n": 0}
@@ -458,6 +470,10 @@ def check_e2e(case: dict) -> Verdict:
         return e
 
     def make_exc(n):
+        if n is None:
+            e = HttpErr(str(mixed["status"]))
+            e.status = mixed["status"]
+            return e
         e = HttpErr("429")
         e.status = 429
         return set_hint(e, n)
@@ -468,7 +484,7 @@ def check_e2e(case: dict) -> Verdict:
         k = calls["n"] - 1
         if k < len(hints):
             fails.append(clock.rel())  # seconds: later failures need not fall on the tick grid
-            if case.get("same_obj") and k > 0:
+            if case.get("same_obj") and k > 0 and hints[k] is not None and hints[k - 1] is not None:
                 e = set_hint(shared["e"], hints[k])  # a client re-raising its stored error with the fresh response
             else:
                 e = shared["e"] = make_exc(hints[k])
@@ -490,10 +506,18 @@ def check_e2e(case: dict) -> Verdict:
     try:
         kw = dict(
             classifier=http_retry_after_classifier,
-            strategy=retry_after_or(lambda ctx: case["fallback"], jitter_s=jit),
             max_attempts=len(hints) + 2,
             deadline_s=1.0e6 if case["deadline"] is None else g(case["deadline"]),
         )
+        hinted = retry_after_or(lambda ctx: case["fallback"], jitter_s=jit)
+        if mixed:
+            kw["strategies"] = {ErrorClass.RATE_LIMIT: hinted}
+            if mixed["via"] == "strategies":
+                kw["strategies"][ErrorClass.SERVER_ERROR] = kw["strategies"][ErrorClass.CONCURRENCY] = lambda ctx: mixed["other"]
+            else:
+                kw["strategy"] = lambda ctx: mixed["other"]
+        else:
+            kw["strategy"] = hinted
         try:
             if case["async"]:
                 pol = AsyncRetry(**kw)
@@ -516,6 +540,10 @@ def check_e2e(case: dict) -> Verdict:
             if len(slept) > k and rem <= -edge:
                 v.fail("C20:e2e:sleep-after-deadline", f"{case}: slept {slept} although the deadline had passed at failure {k + 1}")
             break
+        if n is None:  # not a hinted failure: only its position in the run matters here
+            if len(slept) <= k:
+                break
+            continue
         if len(slept) <= k:
             v.fail("C20:e2e:no-wait", f"{case}: 429 #{k + 1} with Retry-After {n} was not followed by a wait (calls={calls['n']}, slept {slept})")
             break
@@ -533,6 +561,8 @@ def check_e2e(case: dict) -> Verdict:
     v.tag("clamped-by-remaining" if clamped else "unclamped", "as:" + case["as"], f"failures={len(fails)}")
     if case.get("same_obj") and len(fails) > 1:
         v.tag("same-exception-object-new-hint")
+    if mixed and any(h is None for h in hints[: len(fails)]) and any(h is not None for h in hints[1 : len(fails)]):
+        v.tag("429-after-failure-of-another-class")
     return v
 
 
